@@ -188,6 +188,31 @@ def check(ctx):
         exps = res.calls("evo.core.lie_algebra.so3_exp")
         ctx.require(len(exps) == 1 and exps[0].data["args"],
                     f"Plane.{member}: so3_exp call not found (unknown idiom)")
+        # every pose gets the rebuilt rotation: the rebuild must not depend
+        # on a test of the pose itself (an "already planar" shortcut with a
+        # tolerance leaves slightly tilted poses untouched)
+        pose_tests = [a for a in tm.atoms(exps[0].live)
+                      if any(x.op == "elem" for x in a.walk())]
+        def exact(a: T) -> bool:
+            approx = any(is_call_to(x, "numpy.isclose", "numpy.allclose",
+                                    "math.isclose") for x in a.walk())
+            return not approx and (
+                (a.op == "cmp" and a.args[0] in ("Eq", "NotEq")) or
+                is_call_to(a, ".any", ".all", "numpy.any", "numpy.all",
+                           "numpy.array_equal", "numpy.count_nonzero"))
+        # a conjunction is at least as strict as its exact members: an
+        # approximate test next to an exact one cannot widen the shortcut
+        exact_ok = bool(pose_tests) and any(exact(a) for a in pose_tests)
+        ctx.ob("C14.1", exps[0], not pose_tests or exact_ok,
+               f"Plane.{member}: the rotation of every pose is rebuilt "
+               f"(no data-dependent shortcut)" if not pose_tests else
+               (f"Plane.{member}: poses are skipped only on exact equality "
+                f"tests" if exact_ok else
+                f"Plane.{member}: the rebuild of the rotation is skipped "
+                f"when {fmt(pose_tests[0])[:80]} — an approximate test on "
+                f"the pose: a pose tilted out of the plane within that "
+                f"tolerance keeps its out-of-plane rotation"),
+               key=f"C14.1:{member}:every-pose")
         av = exps[0].data["args"][0]
         axis_idx = None
         angle = None
